@@ -128,8 +128,20 @@ class HistoryRun:
         if g is not self.global_obj or cfg_tuple(g) != self.global0:
             self.violations.append((f"global|{where}", f"global configuration changed: {cfg_tuple(g)} != {self.global0}"))
 
-    def run(self, node):
+    def restore_pristine(self):
+        """The simulated process starts every history from the configuration it was started with: a leak left behind by an
+        earlier history (reported there, at its `after-unwind` step) must not make a later history's first step fail."""
+        g = self.config.get_config_global()
+        for i, f in enumerate(FIELDS):
+            want = self.global0[i]
+            if f == "validation_depth" and want is not None:
+                want = self.config.ValidationDepth[want]
+            if getattr(g, f) != want:
+                setattr(g, f, want)
         self.config.reset_config_context()
+
+    def run(self, node):
+        self.restore_pristine()
         self.check_ctx("initial")
         try:
             self.exec_node(node)
@@ -139,7 +151,7 @@ class HistoryRun:
         self.check_ctx("after-unwind")
         if len(self.stack) != 1:
             raise kernel.HarnessError("model stack not unwound")
-        self.config.reset_config_context()
+        self.restore_pristine()
 
     def exec_node(self, node):
         kw = kwargs_of(node["opts"])
